@@ -4,6 +4,7 @@ from vmon import gen
 from vmon import oracle as orc
 from vmon.checks.common import wrapper_agrees, obs, fail, random_prefix, apply_prefix
 
+REJECTED = "prefix"    # worker: every thirteenth case starts with a call the library rejects (common.apply_prefix "rejected")
 SCALE = True   # worker: every fortieth case is blown up by scale_case below
 PROP = "C07"
 MONITORS = ["normalise"]
